@@ -31,3 +31,13 @@ if '--slice' in sys.argv:
     # drop quantified hyps one group at a time
     qs=[i for i,h in enumerate(H) if z3.is_quantifier(h)]
     print(len(qs),'quantified hyps')
+if '--text' in sys.argv:
+    from pyvc import solve
+    ob=[o for o in obs if pat in o.name and o.status is None][0]
+    text = solve.to_smt2(ob)
+    for i in range(3):
+        t=time.time(); print('pool_check', solve._pool_check((text, 10000, i, False))[:3], round(time.time()-t,2))
+    s=z3.Solver(); s.set('timeout',10000); s.from_string(text); t=time.time(); print('from_string', s.check(), round(time.time()-t,2))
+    s=z3.SolverFor('ALL') if False else z3.Solver(); s.set('timeout',10000)
+    for a in z3.parse_smt2_string(text): s.add(a)
+    t=time.time(); print('parse+add', s.check(), round(time.time()-t,2))
